@@ -79,6 +79,15 @@ func (m *model) knownAlphabet() bool {
 	return m.alphabet == align.NUCLEOTIDS || m.alphabet == align.AMINOACIDS
 }
 
+// wildcardReadings: is the "any residue" character X (true) or N (false)? Documented as "N/n (or X/x
+// if protein)"; under an unknown alphabet both readings are accepted, N first
+func (m *model) wildcardReadings() []bool {
+	if m.knownAlphabet() {
+		return []bool{m.alphabet == align.AMINOACIDS}
+	}
+	return []bool{false, true}
+}
+
 func (m *model) collided() bool { return len(m.dups()) > 0 }
 
 func (m *model) names() []string {
